@@ -129,6 +129,21 @@ var c08 = newChk("C08", "ownership",
 		return nil
 	})
 
+// TestC08_DeepRelay: ownership at every relay depth 1..100 (the 0x3F and next-packet patterns).
+func TestC08_DeepRelay(t *testing.T) {
+	ins := deepInners()
+	for _, inner := range ins {
+		for _, d := range deepDepths() {
+			b := deepRelay(d, inner, d%3 == 0)
+			if len(b) > 4096 {
+				continue
+			}
+			c08.one(t, c08Case{V6: true, B: b, Pattern: 2})
+			c08.one(t, c08Case{V6: true, B: b, Pattern: 5, Next: deepRelay(3, ins[3], true)})
+		}
+	}
+}
+
 func firstTypeAt(t *refv6.Msg, a, b []byte) string { return "unreadable-after-overwrite" }
 
 func genC08() *rapid.Generator[c08Case] {
